@@ -158,6 +158,12 @@ mod proofs {
   }
 
   #[kani::proof]
+  #[kani::unwind(7)]
+  fn c20_metavar_spelling_expando_z_n5() {
+    check_expando::<5, 5>('z');
+  }
+
+  #[kani::proof]
   #[kani::unwind(22)]
   fn c20_metavar_spelling_expando_u10000_n5() {
     check_expando::<5, 20>('\u{10000}');
